@@ -57,9 +57,12 @@ class C05(Prop):
                     acc = 1 + (i // 2) % 2
                     if tier == 'quick' and model != 'lin-nb':
                         acc = 1
+                    if model == 'two':
+                        acc = 1
                     out.append({'harness': 'lockstep', 'ops': s, 'method': method, 'hp': hp,
                                 'intervals': 'callable' if hp == 'callable' else 'sym', 'hook': hook, 'acc': acc,
-                                'model': model, 'clip': (i % 7 == 0 and hp == 'const' and method == 'inverse' and acc == 1),
+                                'model': model, 'clip': (i % 7 == 0 and hp == 'const' and method == 'inverse' and acc == 1
+                                                          and 'partial-reset-train' not in s),
                                 'init': 'arbitrary'})
         return out
 
